@@ -689,6 +689,38 @@ fn root_is_red(s: &Snap) -> bool {
 /// One step of every kind from every start state TLC printed for IndKey.tla: every red-black tree up
 /// to a size x every pattern of expirations 1 / 2, the clock at 0.  The real tree is put into the
 /// state through the load hook; the alphabet ranges over both times.
+/// the four query forms for every probe at the time the short-lived entries have just expired (time 1),
+/// each from a freshly loaded copy of the start state - the part of the alphabet in which lazy removal
+/// and the search interact; affordable for start states of seven and eight nodes
+pub fn run_ind_queries<C: KeyColl>(tr: &mut Trace, states: &[Snap]) {
+    let red_roots = leaves_roots_red::<C>();
+    let mut s: KeySession<C> = KeySession::new(tr, 1, 0, 1);
+    for snap in states {
+        if s.tr.full() {
+            break;
+        }
+        if root_is_red(snap) && !red_roots {
+            continue;
+        }
+        if !s.load_snap(snap, 0, 0) {
+            continue;
+        }
+        let top = s.mine.iter().map(|x| x.0).max().unwrap_or(0) + 1;
+        s.keys = top;
+        let base = s.c.as_ref().unwrap().snap_json();
+        let mut fresh = true;
+        for p in 0..=top + 1 {
+            for op in [KOp::Lt { t: 1, p }, KOp::Le { t: 1, p }, KOp::Get { t: 1, k: p }, KOp::By { t: 1, th: 2 * p + 1 }] {
+                if !fresh {
+                    s.load_snap(snap, 0, 0);
+                }
+                s.apply(&op, 0);
+                fresh = s.c.as_ref().map_or(false, |c| c.snap_json() == base);
+            }
+        }
+    }
+}
+
 pub fn run_ind<C: KeyColl>(tr: &mut Trace, states: &[Snap], with_export: bool) {
     let red_roots = leaves_roots_red::<C>();
     let mut s: KeySession<C> = KeySession::new(tr, 1, 0, 1);
